@@ -23,6 +23,7 @@ RULE = (
     "+-[1, range-1] precision steps on >= 1 coordinate (0 elsewhere) then clipped to the bounds and snapped. "
     "Non-trivial = a tie at the selection boundary or an extreme loss present; distinct by (sampler, history hash, options)."
     ' Stub variants: a subclass overriding only sample_candidates, predictions returned as list / tuple, predictions with -inf / +inf, history points outside the space; BestBatch objects are called 1-3 times (history extended by their own batch, or an unrelated shorter history).'
+    ' A tenth of the stub cases have 550-1300 history rows and the default pool (1000 x batch size); a pool predicted in consecutive pieces is accepted, the selection is judged on the pieces put together.'
 )
 ASSUMPTIONS = [
     "an exception inside a third-party estimator on an extreme history is 'no batch' (counted rejected)",
